@@ -9,6 +9,8 @@ import PyamgV.Proofs.CC
 import PyamgV.Proofs.ColoringLoop
 import PyamgV.Proofs.BellmanFordTerm
 import PyamgV.Proofs.Checker
+import PyamgV.Proofs.ExtGraphColor
+import PyamgV.Proofs.ExtGraphMisK
 
 /-! # C18 — graph algorithms return what their names promise
 
@@ -37,6 +39,35 @@ restate bellman_ford_spec := PyamgV.BF.bellmanFord_spec
 /-- the Boolean checker applied to outputs of the real code is equivalent to the specification -/
 restate check_mis_iff := PyamgV.Chk.checkMIS_iff
 restate mis_serial_passes_checker := PyamgV.Chk.misSerial_passes
+
+/-! ### extension (E3): Jones–Plassmann / LDF colourings and the distance-k parallel MIS.
+The statements are about the validated CSR-array models of `Model/ExtGraph.lean` themselves
+(`G.coloringJP`, `G.coloringLDF`, `G.misK`: the definitions the driver ops `ext_color_jp`,
+`ext_color_ldf`, `ext_mis_k` execute), for a CSR graph `Gc` whose adjacency `pg Gc` is symmetric. -/
+/-- one sweep of the validated parallel-MIS model (`max_iters = 1`) is the proof-side sweep `parPass` -/
+restate ext_sweep_model_is_kernel_model := PyamgV.Ext.misParPass_fst
+/-- common loop of JP/LDF, any ordered weight type, any per-round weight update: ends within `n`
+rounds, proper colouring, colours exactly `0..K-1`, `max_element` = `K-1` -/
+restate par_coloring_total := PyamgV.Ext.parColoring_total
+/-- `vertex_coloring_jones_plassmann`, every weight vector (ties allowed) -/
+restate coloring_jp_total := PyamgV.Ext.coloringJP_total
+/-- `vertex_coloring_LDF`, every weight vector (ties allowed) -/
+restate coloring_ldf_total := PyamgV.Ext.coloringLDF_total
+/-- `k` rounds of `csr_propagate_max` give every node the (value, index)-maximum of its distance-`k` ball -/
+restate propagate_max_spec := PyamgV.Ext.propagate_spec
+/-- `maximal_independent_set_k_parallel`, `max_iters = -1`, any `k`, weights `> -1` (the kernel's
+marker value): ends within `n` iterations; result 0/1, independent and maximal at distance `k` -/
+restate mis_k_total := PyamgV.Ext.misK_total
+restate mis_k_total_int := PyamgV.Ext.misK_total_int
+/-- `Ball` (the recursion of the propagation) is "joined by a walk of at most `k` edges" -/
+restate ball_is_walk_distance := PyamgV.Ext.ball_iff
+
+/-! non-vacuity of the extension: on the path 0–1–2–3 (CSR) with tied weights the models return a
+2-colouring and, for `k = 2`, the distance-2 MIS `{0, 3}` -/
+example : G.coloringJP ⟨4, #[0,1,3,5,6], #[1,0,2,1,3,2]⟩ #[1,1,1,1] = some (#[0,1,0,1], 1) := by decide
+example : G.coloringLDF ⟨4, #[0,1,3,5,6], #[1,0,2,1,3,2]⟩ #[1,1,1,1] = some (#[0,1,0,1], 1) := by decide
+example : G.misK ⟨4, #[0,1,3,5,6], #[1,0,2,1,3,2]⟩ 2 (fun (z : Int) => z) #[1,1,1,1] none 5 =
+    some #[1,0,0,1] := by decide
 
 /-! non-vacuity: the path 0–1–2–3 is a well-formed symmetric graph and the model returns {0, 2} -/
 example : Chk.checkMIS ⟨4, fun i => [[1],[0,2],[1,3],[2]].getD i []⟩
